@@ -199,6 +199,26 @@ def install(I):
     def _zip(I, *seqs):
         return list(zip(*[I.concrete_iter(s) for s in seqs]))
 
+    @model(builtins.filter)
+    def _filter(I, fn, seq):
+        out = []
+        for x in I.concrete_iter(seq):
+            keep = I.call(fn, [x]) if fn is not None else x
+            if I.truth(keep, "filter"):
+                out.append(x)
+        return ListObj(out)
+
+    import re as _re
+
+    @model(_re.compile)
+    def _re_compile(I, pattern, flags=0):
+        if isinstance(pattern, str) and isinstance(flags, int):
+            try:
+                return _re.compile(pattern, flags)  # a concrete pattern: the stdlib's own object (its methods run natively)
+            except _re.error as e:
+                raise PyExc(I.make_exc(_re.error, *e.args))
+        raise Unsupported("re.compile of a symbolic pattern")
+
     @model(builtins.range)
     def _range(I, *a):
         if all(isinstance(x, int) for x in a):
